@@ -5,8 +5,9 @@ M: Upload.tla / MC_Upload.tla -- a streaming reader (one action per part, early 
    order; negative control: today's reader (whole-stream byte budget) violates it.
 G: every case of the domain (binding family: every assignment of slots to file fields incl. several paths per
    file, lists, nested objects, batch paths; presence family: missing and extra files; limits family: 0..3
-   files with sizes L-1/L/L+1 x max_file_size in {none, L} x max_num_files in {none, 1, 2}; structure and
-   bad-path families), in rotated / reversed part orders.
+   files with sizes L-1/L/L+1 x max_file_size in {none, L} x max_num_files in {none, 1, 2}; extra family:
+   unmapped file parts around max_num_files in every position; placeholder family: non-null values at the
+   mapped paths; structure and bad-path families), in rotated / reversed part orders.
 harness: renders real multipart/form-data bytes, calls receive_batch_body / receive_body with MultipartOptions.
 V: UploadTrace.tla judges every outcome (bindings as a variables tree with file nodes, uploads per request)."""
 import concurrent.futures
@@ -94,7 +95,7 @@ def body(c):
         for x in r["obs"]:
             if x["out"]["k"] != devpred:
                 c.drift("case %s: the model of today's reader predicts %s, observed %s" % (r["id"], devpred, x["out"]["k"]))
-    for fam in ("bind", "presence", "limits", "dup", "struct", "badpath"):
+    for fam in ("bind", "presence", "limits", "extra", "placeholder", "dup", "struct", "badpath"):
         if fams.get(fam, 0) == 0:
             raise vlib.ToolError("vacuity: family %s is empty" % fam)
     if not expects.get("ok") or not expects.get("error") or multi == 0 or batchpaths == 0:
@@ -108,7 +109,11 @@ def body(c):
                      "(several paths per file, empty path lists) x rotations of the canonical and reversed part order; (presence) "
                      "every subset of mapped files missing x an unmapped extra file; (limits) 0..%d files with sizes in {1, L-1, L, "
                      "L+1}, L=%d, x max_file_size in {none, L} x max_num_files in {none, 1, 2} x {no, small, oversized} unmapped "
-                     "extra file x 2 orders; (dup) the same file field name in 2 or 3 file parts of different sizes, alone and with other entries' files missing "
+                     "extra file x 2 orders; (extra) 0..2 mapped files + 1..2 file parts that the map does not mention (after the mapped files, before them, "
+                     "between operations and map; all rotations of these orders and their reversals) x max_num_files in {1, 2} x max_file_size in {none, L}: "
+                     "the count limit counts every file part received; (placeholder) the 4 operations shapes with a non-null JSON value (\"\", a text, 0, false, "
+                     "{}, [], {k:null}, [null]) at every file position x every assignment of slots to <=2 file fields x 2 orders, plus a batch with mixed "
+                     "values: the file replaces whatever value stands at a mapped path and unmapped positions keep theirs; (dup) the same file field name in 2 or 3 file parts of different sizes, alone and with other entries' files missing "
                      "(which same-named part is bound is free; a duplicate never replaces a missing file); (struct) operations / map / file parts missing, map not JSON; (badpath) paths that do "
                      "not exist. non-trivial = at least one file part or map entry or a structural defect; distinct by case" % (gn, gl, L))
     for r in rows[:1] + [r for r in rows if verdicts[r["id"]][0].startswith("known")][:2]:
@@ -116,7 +121,7 @@ def body(c):
                   "map": r["case"]["map"]["entries"], "obs": [(x["api"], x["out"]["k"], x["out"]["class"]) for x in r["obs"]],
                   "stream_len": r["stream_len"], "verdict": verdicts[r["id"]][0]})
     c.assumptions += ["the harness's multipart/form-data renderer and file-content generator are trusted; upload contents are compared byte for byte in the harness and a mismatch is reported to TLC as a corrupt file node",
-                      "a file part that no map entry mentions and exceeds a limit, and map paths that do not exist in operations, may be rejected or ignored (the property text does not decide)",
+                      "a file part that no map entry mentions and exceeds max_file_size, and map paths that do not exist in operations, may be rejected or ignored (the property text does not decide); max_num_files counts every file part received, mapped or not",
                       "error classes are recorded but not judged (only accepted / rejected)"]
 
 
